@@ -23,12 +23,11 @@ theorem get_returns_view (s : St K V) (hm : s.metered = false) (k : K) :
 theorem has_returns_view (s : St K V) (hm : s.metered = false) (k : K) :
     s.has c k = (s, (view c s k).isSome) := has_unmetered c s hm k
 
-/-- iteration enumerates the keys in range that some layer holds (tree, block cache, session:
-    `St.iterKeys`) and that are not deleted in an overlay, and reports for each the value a `get`
-    would return (`iter_lists_exactly_visible_keys` below says the same without `iterKeys`) -/
+/-- iteration enumerates the keys of the tree in range that are not deleted in an overlay and
+    reports for each the value a `get` would return -/
 theorem iter_returns_view (s : St K V) (hm : s.metered = false) (lo hi : Option K) (asc : Bool) :
     s.iter c lo hi asc =
-      (s, ((s.iterKeys c lo hi asc).filter (fun k => !s.deleted c k)).map
+      (s, ((s.tree.rangeKeys c lo hi asc).filter (fun k => !s.deleted c k)).map
             (fun k => (k, view c s k))) := iter_unmetered c s hm lo hi asc
 
 theorem view_set (s : St K V) (hm : s.metered = false) (k : K) (v : V) (hv : v ≠ c.tomb) :
@@ -167,47 +166,40 @@ theorem get_has_agree (s : St K V) (k : K) (v : Option V) (h : (s.get c k).2 = .
     if it did not) such that the keys before it are all read (`listed`: every key of the tree in
     range that is not deleted in an overlay, in range order, with the value of the view), the keys
     after it are read only if the session answers them (`listedSess`); the charge is that of the
-    reads before the cut-off, and a cut-off inside the range means the gas is used up.
-    The keys visited are `s.iterKeys c lo hi asc`: those of the tree, the block cache and the
-    session in `[lo, hi)`, each once, in iteration order (`mem_iterKeys`, `nodup_iterKeys`,
-    `sorted_iterKeys`) -/
+    reads before the cut-off, and a cut-off inside the range means the gas is used up -/
 theorem iter_returns_view_metered (s : St K V) (lo hi : Option K) (asc : Bool) :
-    ∃ n, n ≤ (s.iterKeys c lo hi asc).length ∧
+    ∃ n, n ≤ (s.tree.rangeKeys c lo hi asc).length ∧
       s.iter c lo hi asc =
-        (s.addGas (iterCost c s ((s.iterKeys c lo hi asc).take n)),
-         listed c s ((s.iterKeys c lo hi asc).take n) ++
-           listedSess c s ((s.iterKeys c lo hi asc).drop n)) ∧
-      (n < (s.iterKeys c lo hi asc).length →
+        (s.addGas (iterCost c s ((s.tree.rangeKeys c lo hi asc).take n)),
+         listed c s ((s.tree.rangeKeys c lo hi asc).take n) ++
+           listedSess c s ((s.tree.rangeKeys c lo hi asc).drop n)) ∧
+      (n < (s.tree.rangeKeys c lo hi asc).length →
         s.metered = true ∧
-        s.gas.limit ≤ s.gas.consumed + iterCost c s ((s.iterKeys c lo hi asc).take n)) :=
+        s.gas.limit ≤ s.gas.consumed + iterCost c s ((s.tree.rangeKeys c lo hi asc).take n)) :=
   iter_cutoff c s lo hi asc
 
 /-- every listed pair is `(k, view c s k)` for a key of the tree in range that is not deleted in
     an overlay, and the pairs come in range order: the listing is a sublist of the full one -/
 theorem iter_lists_only_views (s : St K V) (lo hi : Option K) (asc : Bool) :
     (s.iter c lo hi asc).2.Sublist
-      (((s.iterKeys c lo hi asc).filter (fun k => !s.deleted c k)).map
+      (((s.tree.rangeKeys c lo hi asc).filter (fun k => !s.deleted c k)).map
         (fun k => (k, view c s k))) := iter_sublist c s lo hi asc
 
-/-- spelled out: a listed pair is a key that the tree, the block cache or the session holds,
-    inside `[lo, hi)`, visible to a reader (not deleted in an overlay), with the value the view has
-    for it -/
+/-- spelled out: a listed pair is a key of the working tree inside `[lo, hi)`, not deleted in an
+    overlay, with the value the view has for it -/
 theorem iter_listed_pair (s : St K V) (lo hi : Option K) (asc : Bool) (p : K × Option V)
     (hp : p ∈ (s.iter c lo hi asc).2) :
-    p.2 = view c s p.1 ∧ (view c s p.1).isSome = true ∧ s.deleted c p.1 = false ∧
-    (p.1 ∈ akeys s.tree.working ∨ p.1 ∈ akeys s.cache ∨ ∃ o, s.sess = some o ∧ p.1 ∈ akeys o) ∧
+    p.2 = view c s p.1 ∧ s.deleted c p.1 = false ∧ p.1 ∈ akeys s.tree.working ∧
     (∀ l, lo = some l → c.lt p.1 l = false) ∧ (∀ h, hi = some h → c.lt p.1 h = true) := by
-  have h := iter_listed_visible c s lo hi asc p hp
-  have hv := (mem_visKeys c s lo hi asc p.1).mp h.2
-  have ha := (visible_iff c s p.1).mp hv.2
-  have hr := (inRange_iff c lo hi p.1).mp hv.1
-  exact ⟨h.1, hv.2, ha.2, (mem_allKeys s p.1).mp ha.1, hr.1, hr.2⟩
+  have h := (mem_listed_iff c s _ p).mp ((iter_sublist c s lo hi asc).subset hp)
+  have hr := (mem_rangeKeys c s.tree lo hi asc p.1).mp h.1
+  exact ⟨h.2.2, h.2.1, hr.1, hr.2.1, hr.2.2⟩
 
 /-- a key of the range is missing from the listing only if it is deleted in an overlay or its read
     was refused: the state is metered, the gas was used up by the end of the iteration and the
     session does not hold the key -/
 theorem iter_misses_only_refused (s : St K V) (lo hi : Option K) (asc : Bool) (k : K)
-    (hk : k ∈ s.iterKeys c lo hi asc) (hd : s.deleted c k = false)
+    (hk : k ∈ s.tree.rangeKeys c lo hi asc) (hd : s.deleted c k = false)
     (hmiss : (k, view c s k) ∉ (s.iter c lo hi asc).2) :
     s.metered = true ∧ s.gas.limit ≤ (s.iter c lo hi asc).1.gas.consumed ∧
     s.sess.bind (alookup k) = none := iter_missing c s lo hi asc k hk hd hmiss
@@ -215,10 +207,10 @@ theorem iter_misses_only_refused (s : St K V) (lo hi : Option K) (asc : Bool) (k
 /-- with gas for all the reads nothing is missing (an unmetered state needs none) -/
 theorem iter_complete_when_gas_suffices (s : St K V) (lo hi : Option K) (asc : Bool)
     (h : s.metered = true →
-      s.gas.consumed + iterCost c s (s.iterKeys c lo hi asc) ≤ s.gas.limit) :
+      s.gas.consumed + iterCost c s (s.tree.rangeKeys c lo hi asc) ≤ s.gas.limit) :
     s.iter c lo hi asc =
-      (s.addGas (iterCost c s (s.iterKeys c lo hi asc)),
-       ((s.iterKeys c lo hi asc).filter (fun k => !s.deleted c k)).map
+      (s.addGas (iterCost c s (s.tree.rangeKeys c lo hi asc)),
+       ((s.tree.rangeKeys c lo hi asc).filter (fun k => !s.deleted c k)).map
          (fun k => (k, view c s k))) := by
   rw [iter_eq_foldl, iter_foldl_enough_gas c _ s [] h]
   simp [listed]
@@ -269,156 +261,6 @@ theorem deleted_reads_absent_always (s : St K V) (k : K) (hw : ¬ WriteRefused s
     · left; rw [hg, hview]; simp [upd]
     · right; rw [hg]
   · exact absurd h hw
-
-/-! ## Iteration visits what `Get` would find
-
-  Since the fix "an iteration visits what Get would find, also what was written earlier in the
-  same block" `IterateRange` / `Iterate` enumerate the keys of the tree AND the keys pending in the
-  block cache or the open session (before, only the keys of the tree: a key written earlier in the
-  same block or transaction was not iterated).
-
-  `inRange c lo hi k` : `k` lies in `[lo, hi)`.  `dir asc l` : `l`, reversed when descending.
-  `SortedDir lt asc l` : `l` is sorted in that direction.  `StrictTotal lt` : the byte order is a
-  strict total order. -/
-
-/-- THE FULL STATEMENT, with gas for all the reads (an unmetered state needs none): an iteration
-    lists EXACTLY the keys in `[lo, hi)` a reader can see (`view ≠ none`: written in the session,
-    the block or the tree and not deleted since), each once, each with the value of the view, in
-    the order asked for — it is the sorted duplicate-free list of those keys -/
-theorem iter_lists_exactly_visible_keys_when_gas_suffices (s : St K V) (lo hi : Option K)
-    (asc : Bool)
-    (hg : s.metered = true →
-      s.gas.consumed + iterCost c s (s.iterKeys c lo hi asc) ≤ s.gas.limit) :
-    let ks := (s.iter c lo hi asc).2.map Prod.fst
-    (s.iter c lo hi asc).2 = ks.map (fun k => (k, view c s k)) ∧
-    (∀ k, k ∈ ks ↔ inRange c lo hi k = true ∧ (view c s k).isSome = true) ∧
-    ks.Nodup ∧
-    (StrictTotal c.lt →
-      SortedDir c.lt asc ks ∧
-      ∀ L : List K, L.Nodup →
-        (∀ k, k ∈ L ↔ inRange c lo hi k = true ∧ (view c s k).isSome = true) →
-        ks = dir asc (sortKeys c.lt L)) := by
-  intro ks
-  have hk : ks = visKeys c s lo hi asc := by
-    show (s.iter c lo hi asc).2.map Prod.fst = _
-    rw [iter_enough_gas_visible c s lo hi asc hg]
-    exact map_fst_pairs _ _
-  rw [hk]
-  refine ⟨by rw [iter_enough_gas_visible c s lo hi asc hg], mem_visKeys c s lo hi asc,
-    nodup_visKeys c s lo hi asc, fun ho => ⟨sorted_visKeys c ho s lo hi asc, ?_⟩⟩
-  intro L hn hL
-  exact visKeys_unique c ho s lo hi asc L hn hL
-
-/-- … in particular for every unmetered state -/
-theorem iter_lists_exactly_visible_keys (s : St K V) (hm : s.metered = false) (lo hi : Option K)
-    (asc : Bool) :
-    let ks := (s.iter c lo hi asc).2.map Prod.fst
-    (s.iter c lo hi asc).2 = ks.map (fun k => (k, view c s k)) ∧
-    (∀ k, k ∈ ks ↔ inRange c lo hi k = true ∧ (view c s k).isSome = true) ∧
-    ks.Nodup ∧
-    (StrictTotal c.lt →
-      SortedDir c.lt asc ks ∧
-      ∀ L : List K, L.Nodup →
-        (∀ k, k ∈ L ↔ inRange c lo hi k = true ∧ (view c s k).isSome = true) →
-        ks = dir asc (sortKeys c.lt L)) :=
-  iter_lists_exactly_visible_keys_when_gas_suffices c s lo hi asc
-    (fun h => by rw [hm] at h; cases h)
-
-/-- the same as one equation (`visKeys` = the keys `iterKeys` visits that a reader can see) -/
-theorem iter_exactly_when_gas_suffices (s : St K V) (lo hi : Option K) (asc : Bool)
-    (hg : s.metered = true →
-      s.gas.consumed + iterCost c s (s.iterKeys c lo hi asc) ≤ s.gas.limit) :
-    s.iter c lo hi asc =
-      (s.addGas (iterCost c s (s.iterKeys c lo hi asc)),
-       (visKeys c s lo hi asc).map (fun k => (k, view c s k))) :=
-  iter_enough_gas_visible c s lo hi asc hg
-
-/-- whatever the state, metered or not: only visible keys of the range are listed, with their
-    value (so no listed value is `none`) … -/
-theorem iter_lists_only_visible (s : St K V) (lo hi : Option K) (asc : Bool) (p : K × Option V)
-    (hp : p ∈ (s.iter c lo hi asc).2) :
-    p.2 = view c s p.1 ∧ (view c s p.1).isSome = true ∧ inRange c lo hi p.1 = true := by
-  have h := iter_listed_visible c s lo hi asc p hp
-  have hv := (mem_visKeys c s lo hi asc p.1).mp h.2
-  exact ⟨h.1, hv.2, hv.1⟩
-
-/-- … and every visible key of the range is listed unless the meter refused its read (metered,
-    gas used up by the end of the iteration, key not answered by the session) -/
-theorem iter_lists_visible_unless_refused (s : St K V) (lo hi : Option K) (asc : Bool) (k : K)
-    (hr : inRange c lo hi k = true) (hv : (view c s k).isSome = true) :
-    (k, view c s k) ∈ (s.iter c lo hi asc).2 ∨
-    (s.metered = true ∧ s.gas.limit ≤ (s.iter c lo hi asc).1.gas.consumed ∧
-      s.sess.bind (alookup k) = none) := iter_visible_listed c s lo hi asc k hr hv
-
-/-- THE REPAIRED DEFECT IS GONE: a key written earlier in the same block or transaction is
-    iterated, whether or not the tree holds it — unless the meter refuses the read, which can
-    only happen to a write that went to the metered block cache (no session open) -/
-theorem iter_sees_pending_writes (s : St K V) (k : K) (v : V) (lo hi : Option K) (asc : Bool)
-    (h : (s.set c k v).2 = .ok) (hr : inRange c lo hi k = true) :
-    (k, some v) ∈ ((s.set c k v).1.iter c lo hi asc).2 ∨
-    (s.metered = true ∧ s.sess = none ∧
-      s.gas.limit ≤ ((s.set c k v).1.iter c lo hi asc).1.gas.consumed) := by
-  have hv : v ≠ c.tomb := set_ok_ne_tomb c s k v h
-  rcases set_exact c s k v hv with ⟨_, _, hview⟩ | ⟨_, he⟩
-  · have hvk : view c (s.set c k v).1 k = some v := by rw [hview]; simp [upd]
-    rcases iter_visible_listed c (s.set c k v).1 lo hi asc k hr (by rw [hvk]; rfl) with
-      hl | ⟨hm, hx, hs⟩
-    · left; rw [hvk] at hl; exact hl
-    · right
-      refine ⟨(set_data c s k v).2.symm.trans hm, ?_, ?_⟩
-      · cases ho : s.sess with
-        | none => rfl
-        | some o =>
-          rw [set_sess c s o ho k v hv] at hs
-          simp at hs
-      · have hlim : (s.set c k v).1.gas.limit = s.gas.limit := by
-          unfold St.set
-          split
-          · rfl
-          · split
-            · rfl
-            · split
-              · split
-                · rfl
-                · next g hg => rw [consumeStrict_some _ _ _ hg]; rfl
-              · rfl
-        rw [← hlim]; exact hx
-  · rw [he] at h; cases h
-
-/-- … in an unmetered state always -/
-theorem iter_sees_pending_writes_unmetered (s : St K V) (hm : s.metered = false) (k : K) (v : V)
-    (lo hi : Option K) (asc : Bool) (h : (s.set c k v).2 = .ok) (hr : inRange c lo hi k = true) :
-    (k, some v) ∈ ((s.set c k v).1.iter c lo hi asc).2 := by
-  rcases iter_sees_pending_writes c s k v lo hi asc h hr with hl | ⟨hm', _⟩
-  · exact hl
-  · rw [hm] at hm'; cases hm'
-
-/-- … and what a transaction wrote itself (session open) always, metered or not, gas or not -/
-theorem iter_sees_session_writes (s : St K V) (hs : s.sess.isSome = true) (k : K) (v : V)
-    (lo hi : Option K) (asc : Bool) (h : (s.set c k v).2 = .ok) (hr : inRange c lo hi k = true) :
-    (k, some v) ∈ ((s.set c k v).1.iter c lo hi asc).2 := by
-  rcases iter_sees_pending_writes c s k v lo hi asc h hr with hl | ⟨_, hn, _⟩
-  · exact hl
-  · rw [hn] at hs; cases hs
-
-/-- a key whose delete took effect is not iterated, whatever the tree holds for it -/
-theorem iter_skips_pending_deletes (s : St K V) (hw : ¬ WriteRefused s) (k : K)
-    (lo hi : Option K) (asc : Bool) :
-    ∀ p ∈ ((s.del c k).iter c lo hi asc).2, p.1 ≠ k := by
-  intro p hp hk
-  rcases del_exact c s k with ⟨_, hview⟩ | ⟨h, _⟩
-  · have := (iter_lists_only_visible c (s.del c k) lo hi asc p hp).2.1
-    rw [hk, hview] at this
-    simp [upd] at this
-  · exact hw h
-
-/-- every key pending as deleted in an overlay is skipped (it is not visible) -/
-theorem iter_skips_deleted (s : St K V) (lo hi : Option K) (asc : Bool) (k : K)
-    (hd : s.deleted c k = true) : ∀ p ∈ (s.iter c lo hi asc).2, p.1 ≠ k := by
-  intro p hp hk
-  have := (iter_listed_pair c s lo hi asc p hp).2.2.1
-  rw [hk, hd] at this
-  cases this
 
 /-! ## 3. Sessions: writes of a discarded session are never visible -/
 
@@ -653,10 +495,8 @@ example : exMetered.metered = true ∧ exMetered.gas.consumed = 270 ∧ exMetere
     (exMetered.get exCfg 3).2 = .val (some 30) ∧ (exMetered.get exCfg 3).1.gas.consumed = 292 ∧
     (exMetered.has exCfg 2).2 = false ∧ (exMetered.has exCfg 3).2 = true ∧
     exMetered.tree.get 2 = some 20 ∧
-    (exMetered.iter exCfg none none true).2 = [(1, some 10), (3, some 30)] ∧
-    exMetered.tree.rangeKeys exCfg none none true = [1, 2] ∧
-    exMetered.iterKeys exCfg none none true = [1, 2, 3] ∧
-    exMetered.gas.consumed + iterCost exCfg exMetered (exMetered.iterKeys exCfg none none true)
+    (exMetered.iter exCfg none none true).2 = [(1, some 10)] ∧
+    exMetered.gas.consumed + iterCost exCfg exMetered (exMetered.tree.rangeKeys exCfg none none true)
       ≤ exMetered.gas.limit := by
   decide
 
@@ -683,42 +523,8 @@ example : exFullSess.metered = true ∧ exFullSess.gas.consumed ≥ exFullSess.g
     (exFullSess.get exCfg 1).2 = .val (some 11) ∧ (exFullSess.get exCfg 5).2 = .val (some 50) ∧
     (exFullSess.get exCfg 2).2 = .errGas ∧ view exCfg exFullSess 2 = some 20 ∧
     (exFullSess.has exCfg 2).2 = true ∧
-    (exFullSess.iter exCfg none none true).2 = [(1, some 11), (5, some 50)] ∧
-    exFullSess.iterKeys exCfg none none true = [1, 2, 3, 5] := by
+    (exFullSess.iter exCfg none none true).2 = [(1, some 11)] ∧
+    exFullSess.tree.rangeKeys exCfg none none true = [1, 2] := by
   decide
-
-/-- pending keys are iterated: key 1 is in the tree (and deleted in the session), key 2 only in
-    the block cache, key 3 only in the session; before the fix the iteration listed nothing -/
-def exPending : St Nat Nat := (run exCfg (St.new (Tree.empty ⟨1, 0, 0⟩))
-  [.set 1 10, .commit, .set 2 20, .begin, .set 3 30, .del 1]).1
-
-example : exPending.metered = false ∧
-    akeys exPending.tree.working = [1] ∧ akeys exPending.cache = [2] ∧
-    exPending.sess.map akeys = some [3, 1] ∧
-    exPending.tree.rangeKeys exCfg none none true = [1] ∧
-    exPending.iterKeys exCfg none none true = [1, 2, 3] ∧
-    (exPending.iter exCfg none none true).2 = [(2, some 20), (3, some 30)] ∧
-    (exPending.iter exCfg none none false).2 = [(3, some 30), (2, some 20)] ∧
-    (exPending.iter exCfg (some 3) none true).2 = [(3, some 30)] ∧
-    (exPending.iter exCfg none (some 3) true).2 = [(2, some 20)] ∧
-    view exCfg exPending 1 = none ∧ view exCfg exPending 2 = some 20 ∧
-    view exCfg exPending 3 = some 30 := by
-  decide
-
-/-- the same under a meter with gas left -/
-def exPendingMetered : St Nat Nat := (run exCfg (St.new (Tree.empty ⟨1, 0, 0⟩))
-  [.set 1 10, .commit, .newState (some 1000), .set 2 20, .begin, .set 3 30]).1
-
-example : exPendingMetered.metered = true ∧
-    (exPendingMetered.iter exCfg none none true).2 = [(1, some 10), (2, some 20), (3, some 30)] ∧
-    exPendingMetered.gas.consumed +
-      iterCost exCfg exPendingMetered (exPendingMetered.iterKeys exCfg none none true)
-        ≤ exPendingMetered.gas.limit := by
-  decide
-
-/-- the byte order of the examples is a strict total order -/
-example : StrictTotal exCfg.lt :=
-  ⟨fun a => by simp [exCfg], fun a b c h1 h2 => by simp [exCfg] at *; omega,
-   fun a b h => by simp [exCfg]; omega⟩
 
 end OLP.Props.C09
